@@ -99,12 +99,16 @@ fn is_phasing_indicator(c: char) -> bool {
 fn parse_first_allele(s: &str) -> Result<(Option<usize>, Option<Phasing>), allele::ParseError> {
     use super::allele::{parse_phasing, parse_position};
 
-    match parse_phasing(&s[..1]) {
-        Ok(phasing) => {
-            let position = parse_position(&s[1..])?;
+    // The first character is not necessarily one byte wide.
+    match s
+        .split_at_checked(1)
+        .and_then(|(t, rest)| parse_phasing(t).ok().map(|phasing| (phasing, rest)))
+    {
+        Some((phasing, rest)) => {
+            let position = parse_position(rest)?;
             Ok((position, Some(phasing)))
         }
-        Err(_) => {
+        None => {
             if let Ok(position) = parse_position(s) {
                 Ok((position, None))
             } else {
